@@ -411,21 +411,55 @@ func C04JsonSelect() {
 }
 
 
+// pieces renders the value as one text piece per token (separators glued to the front of the
+// token they precede), so that the text of the first k tokens is a prefix of the document.
+func (j *zzJ) pieces(out []string, sep string) []string {
+	switch j.kind {
+	case 'o':
+		out = append(out, sep+"{")
+		for i, k := range j.keys {
+			s := ""
+			if i > 0 {
+				s = ","
+			}
+			out = append(out, s+"\""+k+"\"")
+			out = j.kids[i].pieces(out, ":")
+		}
+		return append(out, "}")
+	case 'a':
+		out = append(out, sep+"[")
+		for i, k := range j.kids {
+			s := ""
+			if i > 0 {
+				s = ","
+			}
+			out = k.pieces(out, s)
+		}
+		return append(out, "]")
+	}
+	return append(out, sep+string(j.text(nil)))
+}
+
 // C16Json: the JSON stream reader over a source that delivers the first tokens of the document
 // (or all of them) and then fails instead of ending: the failure is never turned into a clean
 // EOF; results before it equal the fault-free run's.
 func C16Json() {
 	v := zzValue(zz.Param("D", 1), zz.Param("W", 2))
+	// a container at top level: the document is complete with its closing delimiter (a bare
+	// scalar only ends with the input, which the token model does not distinguish)
+	zz.Assume(v.kind == 'o' || v.kind == 'a')
 	xp := []string{".", "/*"}[zz.NondetChoice("xpath", 2)]
 	toks := v.tokens(nil)
 	cut := zz.NondetChoice("failAfterTokens", len(toks)+1)
 	var data []byte
 	if !zz.Symbolic() {
-		data = v.text(nil)
+		// natively the source delivers the text of the first `cut` tokens, then fails
+		for _, p := range v.pieces(nil, "")[:cut] {
+			data = append(data, p...)
+		}
 	}
 	src := &zzChunkReader{data: data, failAt: -1}
 	if !zz.Symbolic() {
-		// natively: fail after the whole text (the token-level cut is exercised symbolically only)
 		src.failAt, src.ioErr = len(data), zzIOErr
 	}
 	sp, err := NewJSONStreamReader(src, xp)
